@@ -4,6 +4,7 @@ import (
 	"bytes"
 	"encoding/json"
 	"fmt"
+	"os"
 	"os/signal"
 	"sort"
 	"strconv"
@@ -269,6 +270,10 @@ func (r *c02Run) step(ev string) bool {
 			if l := r.conns["L"]; l != nil && l.m5 != nil {
 				body = l.m5
 			}
+		case "M5-zero-key-universal-signature":
+			// long-term key = the neutral element of the group, whose signature check passes for every message: the
+			// adversary need not know what the accessory expects to be signed
+			body = refctl.M5Sealed(key, refctl.UniversalM5Sub(idX.ID))
 		}
 		m, err = post(body)
 		if cls, isErr, t := c02Class(m, err); !isErr && len(t[refctl.TagEncrypted]) > 0 {
@@ -283,6 +288,9 @@ func (r *c02Run) step(ev string) bool {
 	}
 	cls, isErr, t := c02Class(m, err)
 	r.c.Class(op + "→" + cls)
+	if os.Getenv("C02_DEBUG") != "" {
+		fmt.Fprintln(os.Stderr, "C02_DEBUG", ev, cls)
+	}
 	if !isErr && strings.HasPrefix(op, "M3") && len(t[refctl.TagProof]) > 0 {
 		r.fail("proof-without-code/"+op, "a verify request without knowledge of the setup code ("+op+") was answered with an accessory proof")
 		return false
